@@ -31,3 +31,35 @@ Lemma kind_eqb_eq a b : kind_eqb a b = true <-> a = b.
 Proof.
   unfold kind_eqb. rewrite N.eqb_eq. split; [apply tok_index_inj | intros ->; reflexivity].
 Qed.
+
+(* ------------------------------------------------------------------------------------ *)
+(* lsp_project.rs legend table (Gen.GenLegend) *)
+From Verif Require Import Gen.GenLegend Spec.LspClass.
+
+(* the synthetic ';' inserted after END_IF must never be highlighted (it has no text) *)
+Lemma gen_legend_semicolon : legend_of KSemicolon = None.
+Proof. reflexivity. Qed.
+
+(* every index is a legend entry whose name is acceptable for the kind; kinds with no
+   acceptable class are not highlighted; kinds that must be highlighted are *)
+Definition legend_entry_ok (k : tok_kind) : bool :=
+  match legend_of k with
+  | Some i =>
+      match nth_error legend (N.to_nat i) with
+      | Some name => existsb (String.eqb name) (allowed_classes k)
+      | None => false
+      end
+  | None => negb (must_highlight k)
+  end.
+Definition legend_ok : bool := forallb legend_entry_ok all_kinds.
+Lemma gen_legend_ok : legend_ok = true.
+Proof. vm_compute. reflexivity. Qed.
+
+Lemma all_kinds_complete k : In k all_kinds.
+Proof. destruct k; vm_compute; tauto. Qed.
+
+Lemma legend_entry_ok_all k : legend_entry_ok k = true.
+Proof.
+  pose proof gen_legend_ok as H. unfold legend_ok in H. rewrite forallb_forall in H.
+  apply H. apply all_kinds_complete.
+Qed.
